@@ -150,7 +150,7 @@ func wrapEval(cs *fw.Case, ev map[string]any, sigHead string, xs []float64, mk f
 
 func runWrappers(c *fw.Ctx) {
 	/* log transform: X = exp(Y) - c, Y ~ base */
-	c.Cases("wrap.logtransform", c.N(300, 4000), func(cs *fw.Case) {
+	c.Cases("wrap.logtransform", c.N(300, 3000), func(cs *fw.Case) {
 		r := cs.R
 		name := []string{"normal", "cauchy", "gev"}[cs.Index%3]
 		f := famByName(name)
@@ -202,7 +202,7 @@ func runWrappers(c *fw.Ctx) {
 	})
 
 	/* translation: LogPdf(x) = base.LogPdf(x + c) */
-	c.Cases("wrap.translation", c.N(300, 4000), func(cs *fw.Case) {
+	c.Cases("wrap.translation", c.N(300, 3000), func(cs *fw.Case) {
 		r := cs.R
 		name := wrapBases[cs.Index%len(wrapBases)]
 		f := famByName(name)
@@ -232,7 +232,7 @@ func runWrappers(c *fw.Ctx) {
 	})
 
 	/* mixture */
-	c.Cases("wrap.mixture", c.N(400, 5000), func(cs *fw.Case) {
+	c.Cases("wrap.mixture", c.N(400, 3500), func(cs *fw.Case) {
 		r := cs.R
 		k := r.Range(1, 4)
 		names := make([]string, k)
@@ -299,7 +299,7 @@ func runWrappers(c *fw.Ctx) {
 	})
 
 	/* i.i.d. and independent products (vector distributions over scalar bases) */
-	c.Cases("wrap.product", c.N(480, 6000), func(cs *fw.Case) {
+	c.Cases("wrap.product", c.N(480, 4500), func(cs *fw.Case) {
 		r := cs.R
 		iid := cs.Index%2 == 0
 		n := r.Range(1, 5)
